@@ -284,7 +284,7 @@ def r04_6(ctx):
     rep, model = ctx.rep, ctx.model
     rep.rule("R04.6", "aggregated Levy area: regression slope of A_ij on (H_i W_j - W_i H_j) of the whole query is "
                       "identically 1 in the piece lengths (Gaussian bookkeeping on the aggregation's bilinear form)")
-    for n in (2, 3):
+    for n in ((2, 3) if ctx.tier == "quick" else (2, 3, 4)):
         r = bk.eval_call(model, n, True, True)
         fi = r["fi"]
         rep.analysed(fi)
@@ -350,7 +350,7 @@ def r04_7(ctx):
     rep, model = ctx.rep, ctx.model
     rep.rule("R04.7", "aggregated (W, H) over 2 and 3 independent pieces: Var W = h, Var H = h/12, Cov(W, H) = 0, and the "
                       "covariance with each piece's own (W_i, H_i) is the Brownian one")
-    for n in (2, 3):
+    for n in ((2, 3) if ctx.tier == "quick" else (2, 3, 4, 5)):
         r = bk.eval_call(model, n, True, False, return_U=True, return_A=False)
         fi = r["fi"]
         W, U = r["out"]
